@@ -281,16 +281,16 @@ func genVersion(c *core.Ctx) {
 		"-9223372036854775809", "99999999999999999999", "123456789012345678", "1234567890123456789", "1_0", "0x10", "1e3", " 1", "1a", "\xff"}
 	for i, a := range nums {
 		for j, b := range nums {
-			if (i*7+j*3)%5 != 0 && !(i < 4 && j < 4) {
+			if (i*7+j*3)%8 != 0 && !(i < 4 && j < 4) {
 				continue
 			}
 			for k, cc := range []string{"", ".0", "." + nums[(i+j)%len(nums)], ".1.2", "."} {
-				if c.Quick() && (i+j+k)%2 == 1 && !(i < 4 && j < 4 && k < 2) {
+				if c.Quick() && (i+j+k)%3 != 0 && !(i < 3 && j < 3 && k < 2) {
 					continue
 				}
 				v := a + "." + b + cc
 				addTextCase(c, "version", []byte(v))
-				if (i+j+k)%3 == 0 {
+				if (i+j+k)%9 == 0 || !c.Quick() {
 					addTextCase(c, "version", []byte("$CondorVersion: "+v+" 2025-11-01 BuildID: 1 $"))
 					addTextCase(c, "version", []byte("junk 1. .2 x.y\t"+v+":9.9.9"))
 				}
@@ -330,7 +330,7 @@ func genSinful(c *core.Ctx) {
 						continue
 					}
 					n++
-					if c.Quick() && !(wi == 0 && qi == 0) && n%4 != 1 {
+					if c.Quick() && !(wi == 0 && qi == 0) && n%6 != 1 {
 						continue
 					}
 					sep := ":"
@@ -349,7 +349,7 @@ func genSinful(c *core.Ctx) {
 		addTextCase(c, "sinful", []byte("<10.0.0.1:9618"+q+">"))
 		addTextCase(c, "sinful", []byte("10.0.0.1:9618"+q))
 	}
-	nMut := 80
+	nMut := 50
 	if !c.Quick() {
 		nMut = 1500
 	}
